@@ -798,6 +798,14 @@ func dsTxHistory(c *CaseCtx, kind string, class string) {
 		return
 	}
 	defer run.Close()
+	if c.Case%4 == 2 {
+		// the handle has completed a Merge before the structure exists (lists included: no list record is in the log
+		// when the Merge runs, so the recorded list/Merge finding does not apply)
+		if preMergeHandle(c, run.DB, cfg) {
+			run.Class += "-after-merge"
+			class = run.Class
+		}
+	}
 	g := &Gen{R: r, U: u, Cfg: cfg, List: kind == "list", Set: kind == "set", ZSet: kind == "zset", MaxOps: 1}
 	ntx := 30 + r.Intn(tier(c.Tier, 50, 120))
 	muts := map[string]bool{}
